@@ -100,7 +100,8 @@ def expected_diff(option, probe, base):
          "image is left unmodified and the result carries the probe's physical metadata, as a scalar image whenever the signal was reduced "
          "to one channel", note="stages are arbitrary affine maps with symbolic coefficients that record their call order and inputs")
 def c13_pipeline(ctx, colour, diff, nbase, rest_first, stages):
-    shape = (2, 2, 3) if colour else (2, 2)
+    hw = (1, 3) if (nbase == 1 and rest_first) else ((2, 1) if (nbase == 0 and rest_first) else (2, 2))     # single-row / single-column images ride along
+    shape = (*hw, 3) if colour else hw
     log = []
     d = ctx.reals("d", 2, pos=True, sample=(0.5, 3.0))
     o = ctx.reals("o", 2, sample=(-2.0, 2.0))
@@ -117,10 +118,10 @@ def c13_pipeline(ctx, colour, diff, nbase, rest_first, stages):
     # cleaning filter = running maximum of the reduced differences of the extra baselines
     R = (lambda x: sum(red.w[c] * x[..., c] for c in range(3))) if colour else (lambda x: x)
     if nbase:
-        filt = np.zeros((2, 2), dtype=object)
+        filt = np.zeros(hw, dtype=object)
         for e in extra:
             r = R(expected_diff(diff, e, base_arr))
-            for v in np.ndindex(2, 2):
+            for v in np.ndindex(*hw):
                 filt[v] = sym_max(filt[v], r[v])
         ctx.ensure("cleaning filter == running maximum over the extra baselines of reduction(difference)", eq(ca.threshold_cleaning_filter, filt))
     else:
@@ -148,7 +149,7 @@ def c13_pipeline(ctx, colour, diff, nbase, rest_first, stages):
     ctx.ensure("result carries the probe's physical metadata",
                and_(eq(list(m["dimensions"]), meta_before["dimensions"]), eq(list(m["origin"]), meta_before["origin"]), m["name"] == meta_before["name"],
                     m["space_dim"] == 2, m["series"] == meta_before["series"]))
-    ctx.ensure("scalar image iff the signal was reduced to one channel", isinstance(out, darsia.ScalarImage) and out.img.shape == (2, 2))
+    ctx.ensure("scalar image iff the signal was reduced to one channel", isinstance(out, darsia.ScalarImage) and out.img.shape == hw)
     ctx.ensure("base image of the analysis untouched", same(ca.base.img, base_arr))
     # baseline -> zero signal
     ctx.ensure("the baseline itself has zero difference signal", eq(ca._subtract_background(mk(base_arr)), np.zeros(shape)))
